@@ -15,6 +15,7 @@ class _Injection(object):
     self.doc_actions_before_fault = 0
     self.depth = 0
     self.in_rollback = False
+    self.at_action = None      # class name of the doc action at which the fault fired
 
 
 @contextlib.contextmanager
@@ -34,15 +35,20 @@ def inject(engine, kind, k):
       if kind == 'before' and idx == k and not inj.fired and not inj.in_rollback:
         inj.fired = True
         inj.doc_actions_before_fault = idx
+        inj.at_action = doc_action.__class__.__name__
         raise InjectedFault('before doc action #%d %r' % (idx, doc_action.__class__.__name__))
     inj.depth += 1
     try:
       res = orig_apply(doc_action)
+    except Exception:
+      inj.in_rollback = True     # something failed already: whatever follows is recovery, never inject there
+      raise
     finally:
       inj.depth -= 1
     if top and kind == 'after' and idx == k and not inj.fired and not inj.in_rollback:
       inj.fired = True
       inj.doc_actions_before_fault = idx + 1
+      inj.at_action = doc_action.__class__.__name__
       raise InjectedFault('after doc action #%d %r' % (idx, doc_action.__class__.__name__))
     return res
 
@@ -53,13 +59,20 @@ def inject(engine, kind, k):
       inj.fired = True
       inj.doc_actions_before_fault = inj.doc_actions_seen
       raise InjectedFault('at usercode rebuild #%d' % idx)
-    return orig_rebuild()
+    try:
+      return orig_rebuild()
+    except Exception:
+      inj.in_rollback = True
+      raise
 
   orig_undo = engine._undo_to_checkpoint
 
   def undo_to_checkpoint(checkpoint):
     # never inject into the engine's own rollback (a fault during rollback is a double fault, outside C04)
-    inj.in_rollback = True
+    # (_undo_to_checkpoint is also used to undo side effects of a formula that raised - normal operation)
+    import sys
+    if sys._getframe(1).f_code.co_name == 'apply_user_actions':
+      inj.in_rollback = True
     return orig_undo(checkpoint)
 
   engine.apply_doc_action = apply_doc_action
